@@ -67,5 +67,19 @@ Definition spec_binary (o : op) (x y : value) (w : N) (signed : bool) : option v
   | _ => None
   end.
 
+(* The same function arranged so that vm_compute terminates quickly on huge shift amounts
+   (N.shiftl by 2^32 would build a 2^32-bit number; N.shiftr iterates the amount): amounts are
+   clipped to the context width first.  spec_binary_exec_eq (ValueProofs.v) proves it equal to
+   spec_binary; the check evaluates this one. *)
+Definition clip (w : N) (a : option N) : option N := option_map (N.min w) a.
+Definition spec_binary_exec (o : op) (x y : value) (w : N) (signed : bool) : option vec :=
+  let a := xext signed w x in
+  match o with
+  | LogicShiftL | ArithShiftL => Some (s_shl w a (clip w (amount y)))
+  | LogicShiftR => Some (s_shr w a (clip w (amount y)))
+  | ArithShiftR => Some (s_ashr signed w a (clip w (amount y)))
+  | _ => spec_binary o x y w signed
+  end.
+
 (* observable part of a model / implementation result *)
 Definition obs (v : value) : N * N * N := (pl v, mk v, wd v).
